@@ -406,7 +406,9 @@ func (e *env) bci(out *hx.Out, c bciCfg) {
 			}
 			extra = append(extra, k)
 		}
-		if len(extra) > 0 {
+		if len(extra) > 0 && nrec == 0 {
+			out.Violate(fmt.Sprintf("bridge-call-in: failed contract call was committed as a SUCCESS: no refund record, the tokens stay converted with the receiver and the claim is consumed (point=%s; differing=%s; %s)", point, joinOrDash(categories(extra, e.chain)), cfgs))
+		} else if len(extra) > 0 {
 			out.Violate(fmt.Sprintf("bridge-call-in: failed contract call leaves more than the designated refund record, credit written outside the cache survives and the refund is taken from another address (point=%s; differing=%s; %s)", point, joinOrDash(categories(extra, e.chain)), cfgs))
 		}
 	})
